@@ -782,8 +782,10 @@ class Analysis:
         out = src if src is not None else pk
         if out[1] and ('deref', ) in out[1] and hasattr(self, 'refs'):
             root = self.root_of_ref(out)
-            if root != out and not any(e == ('deref', ) for e in root[1]):
-                out = root  # a copy of `*r`: stands for what r points to
+            if root != out and (not any(e == ('deref', ) for e in root[1]) or
+                                (isinstance(root[0], int) and 1 <= root[0] <= self.fn.argc and root[1][:1] == (('deref', ), ) and
+                                 not any(e == ('deref', ) for e in root[1][1:]))):
+                out = root  # a copy of `*r`: stands for what r points to (also `(*param).field` reached through an alias)
         return out
 
     def cast_preserves(self, st, rv):
@@ -1153,6 +1155,31 @@ class Analysis:
         for i, iv in self.ctx.lens.items():
             if iv is not None:
                 init[('len', (i, ()))] = iv
+        # relational struct invariants (rules/invariants.py): `a <= b` between two fields of a struct holds on entry of
+        # every function that receives the struct (by reference or by value); the fact dies with the first store to
+        # either field like any other fact
+        for k3 in self.ctx.fields:
+            if not (isinstance(k3, tuple) and len(k3) == 5 and k3[0] == 'rel' and k3[1] == 'le'):
+                continue
+            _, _, adt, fa, fb = k3
+            a_def = self.facts.adts.get(adt)
+            if not a_def or not a_def.get('variants'):
+                continue
+            names = [f['name'] for f in a_def['variants'][0]['fields']]
+            if fa not in names or fb not in names:
+                continue
+            for i in range(1, fn.argc + 1):
+                ty = fn.local_ty(i)
+                pre = ()
+                for _ in range(2):
+                    if ty is not None and ty.get('k') in ('ref', 'ptr'):
+                        ty = fn.types[ty['to']]
+                        pre = pre + (('deref', ), )
+                if ty is not None and ty.get('k') == 'adt' and ty.get('path') == adt:
+                    ka = (i, pre + (('f', names.index(fa), fa), ))
+                    kb = (i, pre + (('f', names.index(fb), fb), ))
+                    init[('le', ka, kb)] = (1, 1)
+                    self.ctx.used.add((adt, fa + '<=' + fb))
         heads = set(h for _, h in fn.back_edges())
         self.exit_blocks = []
         self.in_state = {0: (init, {})}
